@@ -394,9 +394,17 @@ func c12Callers(c *core.Ctx, i int64, r *rand.Rand) {
 	}
 	jobs := make([]job, n)
 	for k := range jobs {
-		switch r.Intn(3) {
+		switch r.Intn(4) {
 		case 0:
 			jobs[k].src = c12ManyErrors(r, 5+r.Intn(20))
+		case 1:
+			// many constants, identifiers and locals: multi-byte operands everywhere
+			var b bytes.Buffer
+			for j, m := 0, 250+r.Intn(100); j < m; j++ {
+				fmt.Fprintf(&b, "var v%d = %d.5\nprint \"c%d_%d\" + v%d\n", j, j+k, k, j, j)
+			}
+			fmt.Fprintf(&b, "def blk { f = v249 + v%d }\n", r.Intn(250))
+			jobs[k].src = b.Bytes()
 		default:
 			jobs[k].src = c11Valid(50 + r.Intn(600))
 		}
